@@ -34,9 +34,11 @@
 (*     re-declared (hash, cert, err := countVotes(..)), so what the even step computed is dropped     *)
 (*     at the end of each iteration.  The model follows the code (bh is voted, ih is dead).           *)
 (*                                                                                                  *)
-(* Nodes are honest (one vote per step, the code's rule).  Votes that no honest node cast in this    *)
-(* round (other round, other parent, stranger's key, ...) are outside `sent`: the trace specification *)
-(* checks that the real counter never counts them.                                                  *)
+(* Nodes are honest (one vote per step, the code's rule), except the members in cf.Byz: they do not  *)
+(* run the protocol and may sign any vote of the round, different ones for different receivers       *)
+(* (ByzVote).  Votes that no member cast for this round and head (other round, other parent, a        *)
+(* stranger's key, ...) are outside `sent`: the trace specification checks that the real counter      *)
+(* never counts them.                                                                                *)
 (*                                                                                                  *)
 (* Properties (invariants, all nodes honest, T and TF majorities of the committee):                  *)
 (*   Agreement        no two nodes commit different blocks in the round - FINAL or TENTATIVE, empty    *)
@@ -44,8 +46,13 @@
 (*                    only on a quorum that voted h in an odd step; every member of that quorum holds  *)
 (*                    bh = h or ended BA with h, so it never votes the empty hash in a later step, so   *)
 (*                    the empty hash never reaches a quorum - and vice versa.  The reduction leaves at  *)
-(*                    most one non-empty candidate.  With a Byzantine voter this is Algorand's weaker  *)
-(*                    statement - only FINAL commits are safe under asynchrony; not modelled.)        *)
+(*                    most one non-empty candidate.  The argument is quorum intersection in an honest   *)
+(*                    node, so with f equivocating members it needs 2T - N > f: TLC confirms it for N = 4, *)
+(*                    T = 3, one equivocator, and finds the disagreement for N = 3, T = 2, one equivocator *)
+(*                    (the table of GetCommitteeVotesThreshold is not Byzantine-safe below 4 validators). *)
+(*                    It also DEPENDS on the odd steps voting bh: with Algorand's running     *)
+(*                    value and no common coin two tentative commits can differ - a build of the real    *)
+(*                    engine changed that way was caught committing a block and the empty block.)        *)
 (*   CertifiedCommit  every committed block carries a certificate that Cert!AcceptA accepts on every   *)
 (*                    node's validator view: >= Thr distinct committee members, genuine votes of this  *)
 (*                    round, one step, this block; Final step iff the commit is marked final.         *)
@@ -53,11 +60,15 @@
 (*   EmptyOnTimeout   a vote for a non-empty hash is always backed: R1 by the stored block of the        *)
 (*                    selected proposer, R2 / step 1 by a quorum of the previous count; a count that    *)
 (*                    timed out in the reduction yields the empty hash.                              *)
-(* Liveness is not checked.                                                                          *)
+(* Liveness is not checked.  (Observation, reproducible as the hand case "split-after-R2" of the      *)
+(* check: when two of four nodes leave reduction two with the block and two with the empty hash, no     *)
+(* step of binaryBa reaches a quorum any more even on a perfect network - the 2:2 split is re-voted in    *)
+(* every odd step - and the round ends with "No consensus" after MaxSteps.)                              *)
 EXTENDS Integers, Sequences, FiniteSets, TLC
 
-VARIABLES cf,      \* [N, T, TF, MaxSteps]: committee size (= number of nodes, registry <= 8 so every validator is in every
-                   \*   committee), votes required in a non-final / the final step, cfg.Consensus.MaxSteps
+VARIABLES cf,      \* [N, T, TF, MaxSteps, Byz]: committee size (= number of nodes, registry <= 8 so every validator is in every
+                   \*   committee), votes required in a non-final / the final step, cfg.Consensus.MaxSteps, and the members
+                   \*   that do not run the protocol but may sign any vote, different ones for different receivers (ByzVote)
           props,   \* nodes whose proposer sortition passes; a higher id is a better VRF value
           pc, step,
           best,    \* proposals.bestProofs[round]: best proposer a proof or block was accepted from (0 = none)
@@ -77,6 +88,7 @@ VARIABLES cf,      \* [N, T, TF, MaxSteps]: committee size (= number of nodes, r
 vars == <<cf, props, pc, step, best, blocks, sel, bh, ih, ba, pend, pool, due, sent, fetched, commit, endk>>
 
 Nodes == 1..cf.N
+Honest == Nodes \ cf.Byz
 Empty == 0          \* the empty block of the round; p \in Nodes = the block proposed by p
 NoVal == -1         \* countVotes found nothing before its timer fired
 R1    == 253
@@ -99,12 +111,13 @@ CertOf(n, s, v) == CHOOSE S \in SUBSET Voters(n, s, v) : Cardinality(S) = Thr(s)
 
 InitWith(c, ps) ==
     /\ cf = c /\ props = ps
-    /\ pc = [n \in 1..c.N |-> "idle"] /\ step = [n \in 1..c.N |-> 0]
+    /\ pc = [n \in 1..c.N |-> IF n \in c.Byz THEN "done" ELSE "idle"] /\ step = [n \in 1..c.N |-> 0]
     /\ best = [n \in 1..c.N |-> 0] /\ blocks = [n \in 1..c.N |-> {}] /\ sel = [n \in 1..c.N |-> 0]
     /\ bh = [n \in 1..c.N |-> NoVal] /\ ih = [n \in 1..c.N |-> NoVal]
     /\ ba = [n \in 1..c.N |-> NoCommit] /\ pend = [n \in 1..c.N |-> NoCommit]
     /\ pool = [n \in 1..c.N |-> {}] /\ due = [n \in 1..c.N |-> <<>>] /\ sent = {}
-    /\ fetched = [n \in 1..c.N |-> {}] /\ commit = [n \in 1..c.N |-> NoCommit] /\ endk = [n \in 1..c.N |-> ""]
+    /\ fetched = [n \in 1..c.N |-> {}] /\ commit = [n \in 1..c.N |-> NoCommit]
+    /\ endk = [n \in 1..c.N |-> IF n \in c.Byz THEN "byzantine" ELSE ""]
 
 -----------------------------------------------------------------------------
 (* proposer sortition, proposal, selection of the block to vote for *)
@@ -167,6 +180,12 @@ DeliverVote(m, n) ==
     /\ pool' = [pool EXCEPT ![n] = @ \cup {m}]
     /\ UNCHANGED <<cf, props, pc, step, best, blocks, sel, bh, ih, ba, pend, due, sent, fetched, commit, endk>>
 
+\* an equivocating member signs whatever it likes, whenever it likes
+ByzVote(z, s, v) ==
+    /\ z \in cf.Byz
+    /\ sent' = sent \cup {VoteMsg(z, s, v)}
+    /\ UNCHANGED <<cf, props, pc, step, best, blocks, sel, bh, ih, ba, pend, pool, due, fetched, commit, endk>>
+
 IsBaStep(s) == s >= 1 /\ s < R1
 
 \* what reduction() / binaryBa() / the tail of loop() do with the result `res` of countVotes for step[n];
@@ -215,11 +234,11 @@ AfterCount(n, res, vs) ==
               IN /\ pend' = [pend EXCEPT ![n] = np]
                  /\ pc' = [pc EXCEPT ![n] = IF np.v = Empty \/ np.v \in blocks[n] THEN "commit" ELSE "getblock"]
                  /\ UNCHANGED <<step, due, bh, ih, ba, endk>>
-    /\ UNCHANGED <<cf, props, best, blocks, sel, sent, fetched, commit>>     \* pool: left to the caller
+    /\ UNCHANGED <<cf, props, best, blocks, sel, fetched, commit>>     \* pool and sent: left to the caller
 
 Counting(n) == pc[n] = "count" /\ due[n] = <<>>
-CountOK(n, v)   == Counting(n) /\ Quorum(n, step[n], v) /\ AfterCount(n, v, CertOf(n, step[n], v)) /\ UNCHANGED pool
-CountTimeout(n) == Counting(n) /\ (\A v \in Values : ~Quorum(n, step[n], v)) /\ AfterCount(n, NoVal, {}) /\ UNCHANGED pool
+CountOK(n, v)   == Counting(n) /\ Quorum(n, step[n], v) /\ AfterCount(n, v, CertOf(n, step[n], v)) /\ UNCHANGED <<pool, sent>>
+CountTimeout(n) == Counting(n) /\ (\A v \in Values : ~Quorum(n, step[n], v)) /\ AfterCount(n, NoVal, {}) /\ UNCHANGED <<pool, sent>>
 
 -----------------------------------------------------------------------------
 (* the tail of loop(): add the block, write the certificate *)
@@ -256,6 +275,7 @@ Next ==
                         \/ CommitNow(n) \/ FetchTimeout(n) \/ (\E m \in Nodes : Fetch(n, m))
                         \/ (\E p \in Nodes : DeliverProof(p, n) \/ DeliverBlock(p, n))
                         \/ (\E m \in sent : DeliverVote(m, n))
+                        \/ (\E s \in {R1, R2, Final} \cup 1..(cf.MaxSteps + 2), v \in Values : ByzVote(n, s, v))
 
 -----------------------------------------------------------------------------
 (* properties *)
@@ -282,7 +302,7 @@ Validity == \A n \in Nodes : Committed(n) /\ commit[n].v # Empty => commit[n].v 
 
 \* a non-empty vote is backed
 EmptyOnTimeout ==
-    \A m \in sent : m.t = "vote" /\ m.v # Empty =>
+    \A m \in sent : m.t = "vote" /\ m.v # Empty /\ m.w \in Honest =>
         /\ m.s = R1 => m.v = sel[m.w] /\ m.v \in blocks[m.w]
         /\ m.s = R2 => Quorum(m.w, R1, m.v)
         /\ m.s = 1  => Quorum(m.w, R2, m.v)
@@ -291,7 +311,7 @@ BackedCommit == \A n \in Nodes : Committed(n) /\ commit[n].v # Empty =>
                     /\ Cardinality({m.w : m \in {x \in sent : x.t = "vote" /\ x.s = R1 /\ x.v = commit[n].v}}) >= cf.T
                     /\ Cardinality({m.w : m \in {x \in sent : x.t = "vote" /\ x.s = R2 /\ x.v = commit[n].v}}) >= cf.T
 
-OneVotePerStep == \A m1, m2 \in sent : m1.t = "vote" /\ m2.t = "vote" /\ m1.w = m2.w /\ m1.s = m2.s => m1.v = m2.v
+OneVotePerStep == \A m1, m2 \in sent : m1.t = "vote" /\ m2.t = "vote" /\ m1.w = m2.w /\ m1.w \in Honest /\ m1.s = m2.s => m1.v = m2.v
 
 TypeOK == /\ \A n \in Nodes : pc[n] \in {"idle", "sortwait", "waitblock", "count", "commit", "getblock", "done"}
           /\ \A n \in Nodes : best[n] \in 0..cf.N /\ blocks[n] \subseteq props
